@@ -633,6 +633,7 @@ BRANCHES = [
     'fieldCalc: values reused', 'fieldCalc: field not in the events array', 'fieldCalc: remembered parameter value differs',
     'tstep: tdmInit', 'tstep: llhInit', 'tstep: changeShg', 'tstep: evaluate without event data', 'tstep: evaluate values',
     'tstep: evaluate raises', 'tstep: grad2 number', 'tstep: grad2 refused',
+    'cstep: cevaluate values', 'cstep: cevaluate raises', 'cstep: cgrad2 number', 'cstep: cgrad2 refused',
 ]
 
 
@@ -912,6 +913,124 @@ def _top_compare(case, lops, impl, model_line, stats=None):
     return None
 
 
+# ---- composite likelihood of two datasets (CacheTop.Comp)
+
+def comp_ops(case, rng=None):
+    """the call sequence of top_ops with every evaluate being the composite one (M), plus the composite second derivative (H)"""
+    (lops, broke) = top_ops(dict(case, ops=[o for o in case['ops'] if o[0] != 'H']), rng)
+    out, hs = [], [o for o in case['ops'] if o[0] == 'H']
+    for o in lops:
+        out.append(['M'] + o[1:] if o[0] == 'E' else o)
+        if o[0] == 'E' and (hs or case['final'][0] in ('eval_grad2', 'grad2multi_raw')):
+            out.append(['H', (hs.pop(0) if hs else case['final'])[1]])
+    if case['final'][0] == 'grad2multi_raw':
+        out.append(['H', case['final'][1]])
+    return out, broke
+
+
+def run_comp(spec, d0, s0, lops, cascade=True):
+    cf = _cf()
+    try:
+        G = cf.build(spec, d0, s0, cascade=cascade)
+    except Exception as e:  # noqa
+        raise MachineryError('C06 fixture: cannot build the object graph %r: %s: %s' % (spec, type(e).__name__, e))
+    ns_idx = G.pmm.get_gflp_idx('ns')
+    res = []
+    for op in lops:
+        try:
+            if op[0] == 'T':
+                cf.op_tdm_init(G, op[1])
+                res.append('U')
+            elif op[0] == 'L':
+                cf.op_llh_init(G)
+                res.append('U')
+            elif op[0] == 'C':
+                cf.op_change_shg(G, op[1])
+                res.append('U')
+            elif op[0] == 'M':
+                r = cf.op_evaluate(G, op[1], op[2])
+                res.append({'llh': r['llh'], 'gradNs': r['grads'][ns_idx]})
+            elif op[0] == 'G':
+                res.append(cf.op_grad2(G, op[1]))
+            elif op[0] == 'H':
+                res.append(grad2_multi(G, op[1]))
+        except Exception as e:  # noqa
+            res.append('EXC:%s: %s' % (type(e).__name__, str(e)[:120]))
+    return res
+
+
+def _comp_request(case, lops, variant, cascade=True):
+    cf = _cf()
+    spec = case['spec']
+    t = _top_request(case, [['E'] + o[1:] if o[0] == 'M' else o for o in lops if o[0] != 'H'], variant, cascade).split(' ')
+    # top tokens: 0 'top', 1..9 world (v c man bkg up lo dx grid sel), 10 nev, 11 ak, 12 opa, 13 casc0, 14 d0, 15 s0, 16 ops
+    ss = sorted({case['s0']} | {op[1] for op in lops if op[0] == 'C'})
+    dd = sorted({case['d0']} | {op[1] for op in lops if op[0] == 'T'})
+    evs = [op for op in lops if op[0] == 'M']
+    fj = sorted({'%d:%s:%s' % (s_, flist(op[2]), flist(cf.fj_of(spec, s_, op[2]))) for s_ in ss for op in evs})
+    oth = sorted({'%d:%d:%s:%s' % (d_, s_, flist(op[2]), flist(cf.other_ri(spec, d_, s_, op[2]))) for d_ in dd for s_ in ss for op in evs})
+    cnt = ';'.join('%d:%d:%d' % (d_, cf.N2[d_], cf.E2[d_]) for d_ in sorted(cf.N2))
+    toks = []
+    for op in lops:
+        if op[0] == 'T':
+            toks.append('T%d' % op[1])
+        elif op[0] == 'L':
+            toks.append('L')
+        elif op[0] == 'C':
+            toks.append('C%d' % op[1])
+        elif op[0] == 'M':
+            toks.append('M%s|%s|%s' % (f2b(op[1]), flist(op[2]), flist(_keys(_grid_only(spec), spec, op[2]))))
+        elif op[0] == 'G':
+            toks.append('G' + f2b(op[1]))
+        elif op[0] == 'H':
+            toks.append('H' + f2b(op[1]))
+    return 'comp %s %s %s %s %s %s' % (' '.join(t[1:13]), ';'.join(fj) or '-', ';'.join(oth) or '-', cnt, ' '.join(t[13:16]),
+                                       ';'.join(toks) or '-')
+
+
+def _comp_compare(case, lops, impl, model_line, stats=None):
+    if model_line in ('bad-op', 'bad-ops'):
+        raise MachineryError('C06 driver rejected the comp request: ' + model_line)
+    for i, (op, r, m) in enumerate(zip(lops, impl, model_line.split(';'))):
+        raised = isinstance(r, str) and r.startswith('EXC:')
+        if op[0] in ('T', 'L', 'C'):
+            if raised or m != 'U':
+                return 'call %d %s: implementation %s, model %s' % (i, op, _short(r), m)
+        elif op[0] == 'M':
+            if (m == 'XERR') != raised:
+                return 'call %d %s: implementation %s, model %s' % (i, op, _short(r)[:120], m[:60])
+            if raised:
+                continue
+            (_, llh, gns) = m.split(':')
+            for name, u, v_ in (('composite log-lambda', r['llh'], parse_flist(llh)[0]),
+                                ('composite d log-lambda / d ns', r['gradNs'], parse_flist(gns)[0])):
+                if stats is not None:
+                    stats['comp_numbers'] = stats.get('comp_numbers', 0) + 1
+                if not _closeS(u, v_, scale=1e-2):
+                    return 'call %d %s: %s: implementation %r, model %r' % (i, op, name, u, v_)
+        else:
+            ref = 'REF' if op[0] == 'G' else 'HREF'
+            if raised:
+                return 'call %d %s: implementation raised %s, model %s' % (i, op, r, m)
+            if (m == ref) != (r == 'ERR'):
+                return 'call %d %s: second derivative: implementation %s, model %s' % (i, op, _short(r), m)
+            if m != ref:
+                if stats is not None:
+                    stats['comp_numbers'] = stats.get('comp_numbers', 0) + 1
+                if not _closeS(r, parse_flist(m.split(':')[1])[0]):
+                    return 'call %d %s: %s second derivative: implementation %r, model %r' % (
+                        i, op, 'composite' if op[0] == 'H' else "dataset 0's", r, parse_flist(m.split(':')[1])[0])
+    return None
+
+
+def o_comp_corr(ctx, tcase):
+    """replay of a composite correspondence case: {case, lops}"""
+    variant = extract_variant()
+    impl = run_comp(tcase['case']['spec'], tcase['case']['d0'], tcase['case']['s0'], tcase['lops'])
+    model = ctx.driver('C06', [_comp_request(tcase['case'], tcase['lops'], variant)])[0]
+    return _comp_compare(tcase['case'], tcase['lops'], impl, model)
+
+
 def o_top_corr(ctx, tcase):
     """replay of an upper-layer correspondence case: {case, lops}"""
     variant = extract_variant()
@@ -1049,7 +1168,7 @@ def shrink_field(ctx, fcase):
 ORACLES = {'fresh_vs_used': o_fresh_vs_used, 'cache_onoff': o_cache_onoff, 'corr': o_corr,
            'field_fresh_vs_used': o_field_fresh_vs_used, 'field_corr': o_field_corr,
            'cache_snapshot': o_cache_snapshot, 'trace_fresh': o_trace_fresh, 'repeat_final': o_repeat_final,
-           'top_corr': o_top_corr, 'arg_forms': o_arg_forms}
+           'top_corr': o_top_corr, 'arg_forms': o_arg_forms, 'comp_corr': o_comp_corr}
 
 
 # --------------------------------------------------------------------------------------------------
@@ -1510,6 +1629,45 @@ def run(ctx):
                         relation='log-lambda, ns-gradient, second-derivative number 1e-9 relative; ratios 1e-9; raised/refused exact',
                         impl_output=_short(i), model_output=m[:300], signature='C06/top_corr/' + mode, no_failing_input=True)
     ctx.extra['top_numbers_compared'] = stats.get('top_numbers', 0)
+    # ---- composite likelihood of two datasets vs CacheTop.Comp
+    ccases = []
+    for case, is_w in cases:
+        if case['final'][0] == 'maximize' or ctx.rng.random() >= ctx.n(0.1, 0.4):
+            continue
+        case = dict(case, spec=dict(case['spec'], J=2, product=None))
+        (lops, broke) = comp_ops(case, ctx.rng)
+        if lops:
+            ccases.append((case, lops, broke))
+    for i, sp in enumerate(specs):          # directed: the composite second derivative twice, after failures, after a new trial
+        if i % 3:
+            continue
+        pts = points(sp)
+        p = [pts['p']] * sp['K']
+        c = dict(spec=dict(sp, J=2, product=None, dY=(i % 2 == 0), norm=False), d0=0, s0=0, ops=[], final=['maximize'])
+        ccases.append((c, [['H', 2.5], ['M', 2.5, p], ['H', 2.5], ['H', 0.7], ['G', 2.5], ['M', 0.7, [bad_point(sp)] * sp['K']],
+                           ['H', 2.5], ['M', 0.7, p], ['T', 2], ['L'], ['H', 0.7], ['M', 2.5, p], ['H', 2.5]], False))
+    cimpl = [run_comp(c['spec'], c['d0'], c['s0'], lops) for c, lops, _ in ccases]
+    cmodel = ctx.driver('C06', [_comp_request(c, lops, variant) for c, lops, _ in ccases])
+    c_seen = set()
+    for (c, lops, broke), i, m in zip(ccases, cimpl, cmodel):
+        ctx.case(key=('comp', c['spec'], c['d0'], c['s0'], lops), desc=None)
+        ctx.count('comp:' + ('call order violated on purpose' if broke else 'complete call sequences'))
+        for o, a in zip(lops, m.split(';')):
+            if o[0] == 'M':
+                stats['branches']['cstep: cevaluate values' if a.startswith('V') else 'cstep: cevaluate raises'] += 1
+            elif o[0] == 'H':
+                stats['branches']['cstep: cgrad2 number' if a.startswith('H:') else 'cstep: cgrad2 refused'] += 1
+        d = _comp_compare(c, lops, i, m, stats)
+        if d:
+            suspicious.append((c, i, m, d))
+            mode = 'broken-order' if broke else 'number'
+            if mode not in c_seen:
+                c_seen.add(mode)
+                ctx.violation('comp_corr', {'case': c, 'lops': lops}, 'composite model and implementation disagree (%s)' % d,
+                              kind='correspondence', relation='composite log-lambda, ns-gradient, second derivatives 1e-9 relative; '
+                              'raised/refused exact', impl_output=_short(i), model_output=m[:300],
+                              signature='C06/comp_corr/' + mode, no_failing_input=True)
+    ctx.extra['comp_numbers_compared'] = stats.get('comp_numbers', 0)
     phase['top'] = round(_time.time() - t_ph, 1)
     ctx.extra['phase_s'] = phase
     # ---- data fields depending on global fit parameters (TrialDataManager level)
